@@ -40,7 +40,7 @@ def strategy(tier):
     def _s(draw):
         case = draw(
             SC.solve_case(
-                families=("nlp", "nlp", "qp", "degenerate", "infeasible", "unbounded", "patternvar", "intbox"),
+                families=("nlp", "nlp", "qp", "degenerate", "infeasible", "unbounded", "patternvar", "intbox", "concavebox"),
                 max_n=4 if tier == "quick" else 6,
                 max_m=3,
                 iteration_limit=150 if tier == "quick" else 300,
